@@ -5,7 +5,7 @@
 Require Import Calc.Sem.
 Require Import Calc.Base Calc.Bytecode Calc.Value Calc.FloatText Calc.Ast Calc.Resolve Calc.Compile Calc.VM
         Calc.Session Calc.CorrSession Calc.CompileWf
-        Calc.ExprSem Calc.ExprAssign Calc.ExprLen Calc.ExprSession Calc.StmtSem.
+        Calc.ExprSem Calc.ExprAssign Calc.ExprLen Calc.ExprSession Calc.LExprSem Calc.StmtSem.
 Open Scope Z_scope.
 
 (* the premises of C01_statement_sessions_partial for one parsed tree *)
@@ -40,16 +40,70 @@ Fixpoint rebinds_builtin (t : node) : bool :=
   | _ => false
   end.
 
-(* the trees of one session that lie in the fragment while the built-in names still hold the built-ins
-   (a for loop binding "write" as its variable counts as a rebinding too: its variables are scanned) *)
-Fixpoint count_fragment (trees : list node) (intact : bool) : nat :=
+(* names bound at top level by this statement (assignments and for variables, at any nesting below the
+   top-level statement but not inside function bodies) *)
+Fixpoint binds (t : node) : list string :=
+  match t with
+  | NAssign (NName g) e => g :: binds e
+  | NAssign _ e => binds e
+  | NBlock l | NList l => List.concat (map binds l)
+  | NIf c b => binds c ++ binds b
+  | NIfElse c a b => binds c ++ binds a ++ binds b
+  | NWhile c b => binds c ++ binds b
+  | NFor vs its b =>
+      List.concat (map (fun v => match v with NName g => [g] | _ => [] end) vs) ++ List.concat (map binds its) ++ binds b
+  | NBin _ l r => binds l ++ binds r
+  | NUn _ x => binds x
+  | NIndexAt a i => binds a ++ binds i
+  | NIndexFromTo a f x => binds a ++ binds f ++ binds x
+  | NCall f args => binds f ++ List.concat (map binds args)
+  | NReturn x | NYield x | NWrite x | NAton x | NToa x | NExit x => binds x
+  | _ => []
+  end.
+
+(* the names called at statement level in a (resolved) statement of the fragment *)
+Fixpoint callees (t : node) : list string :=
+  match t with
+  | NCall (NName nm) _ => [nm]
+  | NAssign _ e => callees e
+  | NBlock l => List.concat (map callees l)
+  | NIf _ b => callees b
+  | NIfElse _ a b => callees a ++ callees b
+  | NWhile _ b => callees b
+  | _ => []
+  end.
+
+Definition is_builtin_leaf (nm : string) : bool :=
+  match bop_of_name nm with Some _ => true | None => String.eqb nm "read" end.
+
+(* f = (p) -> body with a body the theorem covers: one parameter, no other variable, a pure expression of
+   the parameter and of globals that are not functions of the table *)
+Definition lambda_def (t : node) : option string :=
+  match strewrite t with
+  | Some (NAssign (NName f) (NFunction [_] body lc)) =>
+      if (lc =? 1) && lpure1 body && negb (is_builtin_leaf f) then Some f else None
+  | _ => None
+  end.
+
+(* the trees of one session that lie in the fragment: built-in names still hold the built-ins, and every
+   function called is a built-in or a user function defined earlier by a qualifying definition and not
+   rebound since (funs) *)
+Fixpoint count_fragment (trees : list node) (intact : bool) (funs : list string) : nat :=
   match trees with
   | [] => 0
   | t :: r =>
-      ((if intact && in_fragment t then 1 else 0) + count_fragment r (intact && negb (rebinds_builtin t)))%nat
+      let ok := intact && in_fragment t &&
+                match strewrite t with
+                | Some t' => forallb (fun nm => is_builtin_leaf nm || existsb (String.eqb nm) funs) (callees t')
+                | None => false
+                end in
+      let bound := binds t in
+      let funs1 := filter (fun f => negb (existsb (String.eqb f) bound)) funs in
+      let funs2 := match lambda_def t with Some f => f :: funs1 | None => funs1 end in
+      ((if ok then 1 else 0) + count_fragment r (intact && negb (rebinds_builtin t)) funs2)%nat
   end.
 
 (* 100000 * (trees inside the fragment) + (all trees) *)
 Definition chk_fragment (l : list ginput) : Z :=
   let trees := List.concat (map g_trees l) in
-  100000 * Z.of_nat (count_fragment trees true) + Z.of_nat (List.length trees).
+  100000 * Z.of_nat (count_fragment trees true []) + Z.of_nat (List.length trees).
